@@ -228,8 +228,12 @@ fn check_members(ctx: &Ctx, rep: &mut Report, id: usize, mems: &[Member]) {
     let sts: Vec<Stmt> = mems.iter().map(|m| m.st.clone()).collect();
     let proofs: Vec<Proof> = mems.iter().map(|m| m.proof.clone()).collect();
     fm::arm();
+    merlin::probe::arm();
     let res = no_panic(|| verify_many(&ts, &sts, &proofs, VerifyAction::VerifyOnly));
+    let events = merlin::probe::take();
     let log = fm::take();
+    // the challenges the library itself drew, per member (the comparison is about the relation, not the layout)
+    let observed = observed_challenges(&events);
     rep.eval(&("coeff", key));
     let lib_ok = match res {
         Err(p) => {
@@ -254,7 +258,7 @@ fn check_members(ctx: &Ctx, rep: &mut Report, id: usize, mems: &[Member]) {
     // weights: the scalar paired with each member's B
     let mut expected = FmPoint::default();
     let mut weights = vec![];
-    for m in mems {
+    for (mi, m) in mems.iter().enumerate() {
         let pairs: Vec<&(Scalar, FmPoint)> = call.dynamic.iter().filter(|(_, p)| *p == m.rp.b).collect();
         if pairs.len() != 1 {
             rep.violation(
@@ -269,7 +273,16 @@ fn check_members(ctx: &Ctx, rep: &mut Report, id: usize, mems: &[Member]) {
             rep.violation(&format!("C02 zero-weight {sig_cfg}"), "a proof enters the final check with weight zero", replay(ctx, id, descr.clone()));
             return;
         }
-        let (rr, _ch) = refbp::ref_residual(&m.ctx.transcript(), &m.rst, &m.rp);
+        let Some(ch) = observed.get(mi).and_then(|g| as_challenges(g, m.rp.l.len())) else {
+            rep.violation(&format!("C02 challenges-not-drawn {sig_cfg}"), "the verifier reached its final check without drawing the y, z, e_j, e challenges of a member", replay(ctx, id, descr.clone()));
+            return;
+        };
+        if ch.y == Scalar::ZERO || ch.z == Scalar::ZERO || ch.e == Scalar::ZERO || ch.rounds.iter().any(|c| *c == Scalar::ZERO) {
+            rep.note("C02: a zero challenge was drawn (probability 2^-252)".into());
+            return;
+        }
+        rep.count("challenges_observed", (3 + m.rp.l.len()) as u64);
+        let rr = refbp::ref_residual_with(&m.rst, &m.rp, &ch, 2);
         expected.axpy(&w, &rr);
         weights.push(w);
     }
